@@ -210,6 +210,37 @@ class _Found(Exception):
     pass
 
 
+class CaseTimeout(BaseException):
+    """raised inside a case that exceeds the per-case real-time limit (BaseException: scenario code catching Exception
+    must not swallow it)"""
+
+
+def _guarded_run(sub, case, limit, stats):
+    """sub.run(case) under a per-case real-time limit.  A case that does not come back within the limit is abandoned
+    and counted as skipped: a time budget that runs out is 'inconclusive', never a violation.  (Cases take milliseconds
+    to seconds; the limit only fires when something spins, which was seen once in thousands of worker-minutes: one
+    worker sat in a single scenario at 100 % CPU and growing memory, and the same scenario ran normally in isolation.)"""
+    import signal
+
+    def on_alarm(signum, frame):
+        raise CaseTimeout()
+
+    try:
+        old = signal.signal(signal.SIGALRM, on_alarm)
+    except ValueError:  # not in the main thread
+        return sub.run(case)
+    signal.setitimer(signal.ITIMER_REAL, limit)
+    try:
+        return sub.run(case)
+    except CaseTimeout:
+        stats.skipped += 1
+        stats.classes["case-abandoned-after-%ds" % int(limit)] += 1
+        return None
+    finally:
+        signal.setitimer(signal.ITIMER_REAL, 0)
+        signal.signal(signal.SIGALRM, old)
+
+
 def _run_hyp(sub, seed_value, n, known, deadline, tier):
     import hypothesis
     from hypothesis import HealthCheck, Phase, given, settings
@@ -223,6 +254,7 @@ def _run_hyp(sub, seed_value, n, known, deadline, tier):
         rounds += 1
         state = {"target": None, "best": None, "best_hash": None, "t_found": None}
         shrink_budget = 45 if tier == "quick" else 200
+        case_limit = 240 if tier == "quick" else 480
 
         def body(case):
             now = time.monotonic()
@@ -233,7 +265,9 @@ def _run_hyp(sub, seed_value, n, known, deadline, tier):
             else:
                 if now > state["t_found"] + shrink_budget and case_hash(case) != state["best_hash"]:
                     return
-            out = sub.run(case)
+            out = _guarded_run(sub, case, case_limit, stats)
+            if out is None:
+                return
             if state["target"] is None:
                 stats.record(case, out)
             bad = []
@@ -304,7 +338,10 @@ def _run_enum(sub, index, nworkers, known, deadline):
                 complete = False
                 stats.skipped += 1
                 continue
-            out = sub.run(case)
+            out = _guarded_run(sub, case, 600, stats)
+            if out is None:
+                complete = False
+                continue
             stats.record(case, out)
             for v in out.violations:
                 if v.key in known:
